@@ -173,6 +173,7 @@ func (vc *VC) fnFieldCall(c *ssa.CallCommon, st *State, reach string, resT types
 	n := vc.callN[target]
 	vc.callN[target] = n + 1
 	vc.eng.note("call through field " + key + " in " + vc.key + ": uses the contract of " + target + " (fnfield struct invariant, checked at every store to the field)")
+	vc.curTerms = vc.fieldCallTerms(target, f) // captproj.go (x-c17): captured variables = projections of the function value
 	return vc.applyContract(con, target, n, args, st, reach, resT, c.Pos()), true
 }
 
